@@ -54,6 +54,18 @@ def gen_cases(rng, tier):
             else:
                 other = rng.choice(list(ctx.units))
                 ops.append(["q_conv", f"{a}@{u}", other, MODE])
+        # targeted: every unit defined by a term or derived from base units,
+        # to and from every other unit of its type (its scale is the product
+        # along the chain: reduction and normalisation of the definition)
+        for i, t in enumerate(ctx.defined):
+            same = [v for v in ctx.linear_units(ctx.units[t]["cls"]) if v != t]
+            rng.shuffle(same)
+            # ... and the defined units of one type among each other
+            prev = [v for v in ctx.defined[:i] if v in same][-2:]
+            for v in prev + same[:4]:
+                a = _qty.tok(rng, _qty.amount(rng))
+                ops.append(["q_conv", f"{a}@{t}", v, MODE])
+                ops.append(["q_convback", f"{a}@{v}", t, MODE])
         cases.append(_qty.case_of(ctx, ops, ["convert"]))
     # exhaustive: every ordered pair of predefined units of every type, there
     # and back, in ONE process (so that caches and registries accumulate)
